@@ -182,7 +182,7 @@ fn gen_seq(max_len: usize, role_server: bool) -> Vec<Tok> {
     seq
 }
 
-fn run_server(net: &Shared, rec: &Rc<RefCell<Obs>>, ex: &mut Exec) {
+pub(crate) fn run_server(net: &Shared, rec: &Rc<RefCell<Obs>>, ex: &mut Exec) {
     let conn: SimConn = net::conn(net, SERVER);
     let r = rec.clone();
     ex.spawn("srv", async move {
@@ -256,7 +256,7 @@ fn run_server(net: &Shared, rec: &Rc<RefCell<Obs>>, ex: &mut Exec) {
     });
 }
 
-fn run_client(net: &Shared, rec: &Rc<RefCell<Obs>>, ex: &mut Exec) {
+pub(crate) fn run_client(net: &Shared, rec: &Rc<RefCell<Obs>>, ex: &mut Exec) {
     let conn: SimConn = net::conn(net, CLIENT);
     let r = rec.clone();
     ex.spawn("cli", async move {
